@@ -379,7 +379,10 @@ func genJSONValue(r *core.RNG, depth int) any {
 	case 1:
 		return r.Chance(1, 2)
 	case 2:
-		return json.Number(core.Pick(r, []string{"0", "1", "-1", "1e21", "1e-7", "0.1", "123456789012", "1.5e300", "4.5", "100", "1e20"}))
+		return json.Number(core.Pick(r, []string{"0", "1", "-1", "1e21", "1e-7", "0.1", "123456789012", "1.5e300", "4.5", "100", "1e20",
+			// integer literals beyond 2^53 (not every one is a double: RFC 8785 serialises the nearest double), other notations of the same number
+			"9007199254740992", "9007199254740993", "-9007199254740995", "9999999999999999", "9123456789012345", "123456789012345678", "999999999999999", "-0", "1.0", "1E3", "100e-2",
+			"0.000001", "1e-6", "5e-324", "1.7976931348623157e308", "0.30000000000000004", "4.35", "333333333.33333329"}))
 	case 3:
 		return core.Pick(r, []string{"", "text", "ünï ✓", "\u0001\u001f", "quote\"back\\slash/", "\U0001F600", "€", "line\nbreak", "sep\u2028\u2029", "<&>", "del\u007f", "nul\u0000", "\ufeff", "\uffff\U00010000"})
 	case 4, 5:
@@ -752,6 +755,29 @@ func (w *World) execJWS(stepIdx int, st *Step) {
 	mustFail("malformed", "padding", parts[0]+"."+parts[1]+"=."+parts[2], jwk)
 	mustFail("malformed", "non-alphabet", parts[0]+"."+parts[1]+".*"+parts[2][1:], jwk)
 	mustFail("malformed", "JSON serialisation", "{\"signature\":\""+parts[2]+"\"}", jwk)
+	// the detached form (header..signature, payload supplied by the verifier) and its malformed splits
+	if jd, derr := jwsutil.NewJWS(signer.Headers(), nil, payload, signer); derr == nil {
+		det, _ := jd.SerializeCompact(true)
+		dp := strings.Split(det, ".")
+		if got, verr := jwsutil.VerifyJWS(det, jwk, jwsutil.WithJWSDetachedPayload(payload)); len(dp) != 3 || verr != nil || got == nil || !bytes.Equal(got.Payload, payload) {
+			w.violate("C15/valid-rejected", key.Type.String()+":detached", "detached JWS by the matching %s key does not verify with the payload supplied: %v", key.Type, verr)
+		} else {
+			for _, bad := range []string{dp[0] + "..." + dp[2], dp[0] + "...." + dp[2], dp[0] + ".x.y." + dp[2], dp[0] + ".AAAA.BBBB." + dp[2], dp[0] + "." + dp[2], dp[0] + ".." + dp[2] + ".", "." + dp[0] + ".." + dp[2]} {
+				n++
+				if st.Index > 0 && st.Index != n {
+					continue
+				}
+				w.T.Count("jws_faults", 1)
+				w.T.Fault("jws_malformed_detached")
+				if res, err := jwsutil.VerifyJWS(bad, jwk, jwsutil.WithJWSDetachedPayload(payload)); err == nil && res != nil {
+					w.violate("C15/tampered-verifies", key.Type.String()+":malformed_detached", "%s: malformed compact form %q verified with a detached payload", key.Type, clipN([]byte(bad), 120))
+				}
+			}
+			if _, err := jwsutil.VerifyJWS(det, jwk, jwsutil.WithJWSDetachedPayload(append(append([]byte{}, payload...), 'x'))); err == nil {
+				w.violate("C15/tampered-verifies", key.Type.String()+":detached_payload_changed", "%s: detached JWS verified with another payload", key.Type)
+			}
+		}
+	}
 	mustFail("wrong_length", "signature one byte short", joinJWS(h, p, sig[:len(sig)-1]), jwk)
 	mustFail("wrong_length", "signature one byte long", joinJWS(h, p, append(append([]byte{}, sig...), 0)), jwk)
 	if key.Type != Ed25519 {
@@ -865,6 +891,7 @@ func (w *World) execJWK(stepIdx int, st *Step) {
 	}
 	// corruptions of the wire JWK must be rejected
 	n := 0
+	var rawText []byte
 	mustReject := func(class string, m map[string]any) {
 		n++
 		if st.Index > 0 && st.Index != n {
@@ -873,6 +900,9 @@ func (w *World) execJWK(stepIdx int, st *Step) {
 		w.T.Count("jwk_faults", 1)
 		w.T.Fault("jwk_" + class)
 		b := ref.JCS(m)
+		if m == nil {
+			b = rawText
+		}
 		var asJWK jws.JWK
 		_ = json.Unmarshal(b, &asJWK)
 		_, rerr := readBack(b)
@@ -940,6 +970,29 @@ func (w *World) execJWK(stepIdx int, st *Step) {
 		m := ref.Clone(want).(map[string]any)
 		m["x"], m["y"] = m["y"], m["x"]
 		mustReject("coordinates_swapped", m)
+		// JSON text level: member names that differ from kty / crv / x / y only by letter case are OTHER (unknown, ignored) members, and
+		// a member must not occur twice - the real member is missing, off the curve or names another curve
+		offY := append([]byte{}, key.Y...)
+		offY[len(offY)-1] ^= 1
+		q := func(s string) string { b, _ := json.Marshal(s); return string(b) }
+		kty, crv, xs, ys, bad := q(key.Type.Kty()), q(key.Type.Crv()), q(ref.B64(key.X)), q(ref.B64(key.Y)), q(ref.B64(offY))
+		otherCrv := q("P-256")
+		if key.Type == P256 {
+			otherCrv = q("P-384")
+		}
+		for _, txt := range []string{
+			`{"kty":` + kty + `,"crv":` + crv + `,"x":` + xs + `,"y":` + bad + `,"Y":` + ys + `}`,
+			`{"kty":` + kty + `,"crv":` + crv + `,"x":` + xs + `,"Y":` + ys + `}`,
+			`{"kty":` + kty + `,"crv":` + crv + `,"X":` + xs + `,"y":` + ys + `}`,
+			`{"kty":` + kty + `,"crv":` + otherCrv + `,"CRV":` + crv + `,"x":` + xs + `,"y":` + ys + `}`,
+			`{"kty":` + kty + `,"Crv":` + crv + `,"x":` + xs + `,"y":` + ys + `}`,
+			`{"KTY":` + kty + `,"crv":` + crv + `,"x":` + xs + `,"y":` + ys + `}`,
+			`{"kty":` + kty + `,"crv":` + crv + `,"x":` + xs + `,"y":` + bad + `,"y":` + ys + `}`,
+			`{"kty":` + kty + `,"crv":` + otherCrv + `,"crv":` + crv + `,"x":` + xs + `,"y":` + ys + `}`,
+		} {
+			rawText = []byte(txt)
+			mustReject("member_name_case_or_duplicate", nil)
+		}
 		// the same point bytes with the boundary between x and y moved: each coordinate has the wrong width, their concatenation is intact
 		xy := append(append([]byte{}, key.X...), key.Y...)
 		n := key.Type.CoordSize()
